@@ -185,6 +185,8 @@ func emitShape(pk map[string]*pkgInfo) string {
 		facts = append(facts, f)
 	}
 
+	facts = append(facts, shapeUDP(l4)...) // C09 (appended at the end of this file)
+	facts = append(facts, shapeRelayHealth(pk)...) // C03/C11 (appended at the end of this file)
 	sort.Slice(facts, func(i, j int) bool { return facts[i].name < facts[j].name })
 	var b bytes.Buffer
 	b.WriteString("(* GENERATED by tools/l4gen from /repo's working tree. Do not edit. *)\n")
@@ -467,4 +469,245 @@ func shapeC05(l4 *pkgInfo) []fact {
 		{"layer4_compile_clears_before_fallback", "bool", b2s(fallbackClears), "RouteList.Compile clears the deadline before the final fallback next.Handle"},
 		{"layer4_compile_last_exit_clears_deadline", "bool", b2s(lastExitClears), "the `lastMatchedRouteIdx == len(routes)-1` exit of RouteList.Compile clears the deadline before next.Handle"},
 	}
+}
+
+// ---------- C09: shape of the UDP server loop (appended by b-c09) ----------
+//
+// Channel capacities of servePacket, the statement list of packetConn.Close as op codes, and how
+// the loop sends to / forgets an association. coq/model/Udp.v builds its configuration from these.
+//
+// Close op codes: 0 release lastPacket; 1 close(pc.readCh); 2 drain readCh with `range` (needs a
+// closed channel to terminate); 3 notify the loop (pc.closeCh <- ...); 4 return; 5 signal closure
+// without closing readCh (close(pc.closed), possibly under a sync.Once); 6 drain readCh without
+// blocking (select with default); 9 anything else.
+func shapeUDP(l4 *pkgInfo) []fact {
+	var out []fact
+	add := func(name, typ, val, comment string) { out = append(out, fact{name, typ, val, comment}) }
+	b2s := func(b bool) string {
+		if b {
+			return "true"
+		}
+		return "false"
+	}
+	chanCap := func(e ast.Expr) (int, bool) {
+		ce, ok := e.(*ast.CallExpr)
+		if !ok {
+			return 0, false
+		}
+		if id, ok := ce.Fun.(*ast.Ident); !ok || id.Name != "make" || len(ce.Args) == 0 {
+			return 0, false
+		}
+		if _, ok := ce.Args[0].(*ast.ChanType); !ok {
+			return 0, false
+		}
+		if len(ce.Args) < 2 {
+			return 0, true
+		}
+		if bl, ok := ce.Args[1].(*ast.BasicLit); ok {
+			var n int
+			if _, err := fmt.Sscan(bl.Value, &n); err == nil {
+				return n, true
+			}
+		}
+		return -1, true
+	}
+	if fd := l4.findFunc("Server", "servePacket"); fd != nil {
+		caps := map[string]int{"packets": -1, "closeCh": -1, "readCh": -1}
+		closeElem := ""
+		ast.Inspect(fd.Body, func(n ast.Node) bool {
+			switch x := n.(type) {
+			case *ast.AssignStmt:
+				if len(x.Lhs) == 1 && len(x.Rhs) == 1 {
+					if id, ok := x.Lhs[0].(*ast.Ident); ok {
+						if c, ok := chanCap(x.Rhs[0]); ok {
+							if _, want := caps[id.Name]; want {
+								caps[id.Name] = c
+							}
+							if id.Name == "closeCh" {
+								closeElem = l4.src(x.Rhs[0].(*ast.CallExpr).Args[0].(*ast.ChanType).Value)
+							}
+						}
+					}
+				}
+			case *ast.KeyValueExpr:
+				if id, ok := x.Key.(*ast.Ident); ok {
+					if c, ok := chanCap(x.Value); ok {
+						if _, want := caps[id.Name]; want {
+							caps[id.Name] = c
+						}
+					}
+				}
+			}
+			return true
+		})
+		add("layer4_udp_cap_packets", "Z", fmt.Sprintf("(%d)", caps["packets"]), "capacity of the packets channel in servePacket (-1: not found)")
+		add("layer4_udp_cap_closeCh", "Z", fmt.Sprintf("(%d)", caps["closeCh"]), "capacity of closeCh in servePacket (-1: not found)")
+		add("layer4_udp_cap_readCh", "Z", fmt.Sprintf("(%d)", caps["readCh"]), "capacity of packetConn.readCh as created in servePacket (-1: not found)")
+		add("layer4_udp_close_notify_identity", "bool", b2s(closeElem != "" && closeElem != "string"),
+			"closeCh carries the association itself (not its address string), so the loop can tell a stale notification")
+
+		// how does the loop send to conn.readCh, and does it look at conn.closed before using a table entry?
+		guarded, plain, skips, deleteChecked, deletes := false, false, false, false, 0
+		var walk func(n ast.Node, inSelectWithClosed bool, inIf bool)
+		isReadChSend := func(st ast.Stmt) bool {
+			ss, ok := st.(*ast.SendStmt)
+			return ok && strings.HasSuffix(l4.src(ss.Chan), ".readCh")
+		}
+		walk = func(n ast.Node, inSel bool, inIf bool) {
+			ast.Inspect(n, func(m ast.Node) bool {
+				switch x := m.(type) {
+				case *ast.SelectStmt:
+					hasClosed := false
+					for _, c := range x.Body.List {
+						cc := c.(*ast.CommClause)
+						if cc.Comm != nil && !isReadChSend(cc.Comm) && strings.Contains(l4.src(cc.Comm), ".closed") {
+							hasClosed = true
+						}
+					}
+					for _, c := range x.Body.List {
+						cc := c.(*ast.CommClause)
+						if cc.Comm != nil && isReadChSend(cc.Comm) {
+							if hasClosed {
+								guarded = true
+							} else {
+								plain = true
+							}
+						}
+						for _, b := range cc.Body {
+							walk(b, false, inIf)
+						}
+					}
+					return false
+				case *ast.SendStmt:
+					if isReadChSend(x) {
+						plain = true
+					}
+				case *ast.IfStmt:
+					cond := l4.src(x.Cond)
+					if strings.Contains(cond, "isClosed()") || strings.Contains(cond, ".closed") {
+						skips = true
+					}
+					if strings.Contains(cond, "udpConns[") && strings.Contains(cond, "==") && contains(x.Body, l4, "delete(udpConns") {
+						deleteChecked = true
+					}
+				case *ast.CallExpr:
+					if id, ok := x.Fun.(*ast.Ident); ok && id.Name == "delete" && len(x.Args) > 0 && l4.src(x.Args[0]) == "udpConns" {
+						deletes++
+					}
+				}
+				return true
+			})
+		}
+		walk(fd.Body, false, false)
+		add("layer4_udp_loop_send_guarded", "bool", b2s(guarded && !plain), "every send to conn.readCh in servePacket is a select case next to a receive from conn.closed")
+		add("layer4_udp_loop_skips_closed", "bool", b2s(skips), "servePacket tests whether the association found in udpConns has already ended before using it")
+		add("layer4_udp_loop_delete_checked", "bool", b2s(deleteChecked && deletes == 1), "the only delete(udpConns, ...) is guarded by a comparison of the table entry with the notifying association")
+	}
+	if fd := l4.findFunc("packetConn", "Close"); fd != nil {
+		var codes []string
+		for _, st := range fd.Body.List {
+			s := l4.src(st)
+			code := 9
+			switch x := st.(type) {
+			case *ast.IfStmt:
+				if strings.Contains(l4.src(x.Cond), "pc.lastPacket != nil") && strings.Contains(s, "udpBufPool.Put(pc.lastPacket.pooledBuf)") && strings.Contains(s, "pc.lastPacket = nil") && x.Else == nil {
+					code = 0
+				}
+			case *ast.ExprStmt:
+				t := strings.Join(strings.Fields(s), " ")
+				switch {
+				case t == "close(pc.readCh)":
+					code = 1
+				case t == "close(pc.closed)" || t == "pc.closeOnce.Do(func() { close(pc.closed) })":
+					code = 5
+				}
+			case *ast.RangeStmt:
+				if l4.src(x.X) == "pc.readCh" && strings.Contains(s, "udpBufPool.Put(") && !strings.Contains(s, "<-") && !strings.Contains(s, "close(") {
+					code = 2
+				}
+			case *ast.SendStmt:
+				if l4.src(x.Chan) == "pc.closeCh" {
+					code = 3
+				}
+			case *ast.ReturnStmt:
+				code = 4
+			case *ast.ForStmt:
+				// for { select { case pkt := <-pc.readCh: Put; default: <leave> } }
+				if strings.Contains(s, "<-pc.readCh") && strings.Contains(s, "default:") && strings.Contains(s, "udpBufPool.Put(") && !strings.Contains(s, "close(") && !strings.Contains(s, "pc.closeCh") {
+					code = 6
+				}
+			}
+			codes = append(codes, fmt.Sprint(code))
+		}
+		val := "nil"
+		for i := len(codes) - 1; i >= 0; i-- {
+			val = "(cons " + codes[i] + " " + val + ")"
+		}
+		add("layer4_pc_close_ops", "list Z", val, "packetConn.Close statement by statement: 0 release lastPacket, 1 close(readCh), 2 drain by range, 3 notify loop, 4 return, 5 signal closed, 6 non-blocking drain, 9 other")
+	}
+	if fd := l4.findFunc("packetConn", "Read"); fd != nil {
+		s := l4.src(fd.Body)
+		add("layer4_pc_read_selects_closed", "bool", b2s(strings.Contains(s, "<-pc.closed")), "packetConn.Read has a select case on pc.closed")
+		// the two places that lead to the EOF path: a nil packet (closed readCh) and the idle timer
+		add("layer4_pc_read_eof_notifies", "bool", b2s(strings.Contains(s, "pc.closeCh <-")), "packetConn.Read notifies the loop before returning io.EOF")
+	}
+	return out
+}
+
+// ---------- C03/C11: method sets of the connection wrappers, call sites of the peer counters (appended by b-c03) ----------
+//
+// coq/model/Relay.v computes "does CloseWrite on down.Conn reach the transport" from the method
+// sets of the wrapper types; coq/model/Health.v reads whether connections are counted and the
+// shape of the forgetter / tryAgain.
+func shapeRelayHealth(pk map[string]*pkgInfo) []fact {
+	var out []fact
+	add := func(name, typ, val, comment string) { out = append(out, fact{name, typ, val, comment}) }
+	b2s := func(b bool) string {
+		if b {
+			return "true"
+		}
+		return "false"
+	}
+	hasMethod := func(pkg, recv, name string) bool {
+		p := pk[pkg]
+		return p != nil && p.findFunc(recv, name) != nil
+	}
+	add("layer4_Connection_has_CloseWrite", "bool", b2s(hasMethod("layer4", "Connection", "CloseWrite")), "*layer4.Connection declares a CloseWrite method (its embedded net.Conn interface does not promote one)")
+	add("l4throttle_throttledConn_has_CloseWrite", "bool", b2s(hasMethod("l4throttle", "throttledConn", "CloseWrite")), "l4throttle.throttledConn declares a CloseWrite method")
+	add("l4tee_nextConn_has_CloseWrite", "bool", b2s(hasMethod("l4tee", "nextConn", "CloseWrite")), "l4tee.nextConn declares a CloseWrite method")
+	add("l4proxyprotocol_conn_has_CloseWrite", "bool", b2s(hasMethod("l4proxyprotocol", "conn", "CloseWrite") || hasMethod("l4proxyprotocol", "ppConn", "CloseWrite")), "l4proxyprotocol wraps the third-party *proxyprotocol.Conn in a local type declaring CloseWrite")
+	px := pk["l4proxy"]
+	if px != nil {
+		up, down := 0, 0
+		for _, f := range px.files {
+			ast.Inspect(f, func(n ast.Node) bool {
+				ce, ok := n.(*ast.CallExpr)
+				if !ok {
+					return true
+				}
+				if se, ok := ce.Fun.(*ast.SelectorExpr); ok && se.Sel.Name == "countConn" && len(ce.Args) == 1 {
+					switch strings.ReplaceAll(px.src(ce.Args[0]), " ", "") {
+					case "1", "+1":
+						up++
+					case "-1":
+						down++
+					}
+				}
+				return true
+			})
+		}
+		add("l4proxy_countConn_up_calls", "Z", fmt.Sprint(up), "call sites peer.countConn(1) in package l4proxy")
+		add("l4proxy_countConn_down_calls", "Z", fmt.Sprint(down), "call sites peer.countConn(-1) in package l4proxy")
+		if fd := px.findFunc("Handler", "countFailure"); fd != nil {
+			s := px.src(fd.Body)
+			add("l4proxy_forgetter_sleeps_fail_duration", "bool", b2s(strings.Contains(s, "time.Sleep(failDuration)") && strings.Contains(s, "failDuration := time.Duration(h.HealthChecks.Passive.FailDuration)")), "the forgetter goroutine of countFailure sleeps exactly Passive.FailDuration")
+			add("l4proxy_countFailure_up_down", "bool", b2s(strings.Count(s, "countFail(1)") == 1 && strings.Count(s, "countFail(-1)") == 1), "countFailure calls countFail(1) once and its forgetter countFail(-1) once")
+		}
+		if fd := px.findFunc("LoadBalancing", "tryAgain"); fd != nil {
+			s := px.src(fd.Body)
+			add("l4proxy_tryAgain_compares_try_duration", "bool", b2s(strings.Contains(s, "time.Since(start) >= time.Duration(lb.TryDuration)")), "tryAgain stops when time.Since(start) >= TryDuration")
+			add("l4proxy_tryAgain_sleeps_try_interval", "bool", b2s(strings.Contains(s, "time.After(time.Duration(lb.TryInterval))")), "tryAgain waits TryInterval before the next attempt")
+		}
+	}
+	return out
 }
